@@ -339,12 +339,16 @@ impl<'a> NonPredicateParamResolver<'a> {
         None
     }
 
-    fn try_replace_expr_path_with_type(&self, path: &mut syn::Path) {
-        let first_seg = path.segments.first_mut().unwrap();
+    fn try_replace_expr_path_with_expr(&self, path: &syn::Path) -> Option<syn::Expr> {
+        let replacement = *self.const_param_replacements.get(path.get_ident()?)?;
 
-        if let Some(replacement) = self.const_param_replacements.get(&first_seg.ident) {
-            *first_seg = syn::parse_quote!(#replacement);
-        }
+        Some(match replacement {
+            syn::Expr::Path(_) | syn::Expr::Lit(_) | syn::Expr::Block(_) | syn::Expr::Paren(_) => {
+                replacement.clone()
+            }
+            // NOTE: Keep the replacement a single operand of the surrounding expression
+            replacement => syn::parse_quote!((#replacement)),
+        })
     }
 }
 
@@ -376,8 +380,10 @@ impl VisitMut for NonPredicateParamResolver<'_> {
                 // TODO: struct name can clash with type/const param name
                 if let Some(new_ty) = self.try_replace_type_path_with_type(&ty.path) {
                     *ty = syn::parse_quote!(#new_ty);
-                } else {
-                    self.try_replace_expr_path_with_type(&mut ty.path);
+                } else if ty.qself.is_none()
+                    && let Some(new_expr) = self.try_replace_expr_path_with_expr(&ty.path)
+                {
+                    *node = new_expr;
                 }
             }
             _ => syn::visit_mut::visit_expr_mut(self, node),
